@@ -222,6 +222,14 @@ def run(prog, chk):
                     movers = [i for i, n in enumerate(order) if n['k'] == 'mcall' and P.callee_of(n) is not None and P.callee_of(n).key in P.moves]
                     ok = bool(movers) and i_restore < min(movers)
                     detail = 'cursor restored from the value saved before the try, before parsing resumes' if ok else 'cursor restored after parsing resumed'
+                    # … and the saved position belongs to the current iteration of every loop around the restore: a position saved
+                    # before the loop rewinds past what earlier iterations consumed, and the loop need not make progress any more
+                    from ..kernels import enclosing_stmts
+                    rv = SX.strip(SX.write_target(first)[1])
+                    for lp in [x for x in enclosing_stmts(f.body, first) if x['k'] in ('while', 'for', 'do', 'forrange')]:
+                        if not any(v['k'] == 'var' and v.get('id') == rv.get('id') for v in SX.walk(lp['body'], into_lambdas=False)):
+                            ok = False
+                            detail = 'the cursor is restored to a position saved outside the enclosing loop: a later iteration rewinds over what earlier ones consumed (no progress, the loop may not terminate)'
                 chk.ob('R13.4', f, h.get('ln', f.ln), ok, detail, key='handler:%s' % f.short)
     chk.count('parser handlers that resume parsing', nh, 1)
 
@@ -557,9 +565,9 @@ def _config_members(prog, rec):
                 continue
             for n in SX.walk(f.body):
                 w = SX.write_target(n)
-                if w and SX.is_this_member(SX.strip(w[0]), fld['name']):
-                    writers.add(f)
-                if n['k'] == 'mcall' and not n.get('constm', True) and SX.is_this_member(n.get('obj'), fld['name']):
+                if w and _rooted_in_member(w[0], fld['name']):
+                    writers.add(f)      # the member itself, an element (`m[k] = v`) or a field of it
+                if n['k'] == 'mcall' and not n.get('constm', True) and _rooted_in_member(n.get('obj'), fld['name']):
                     writers.add(f)
             for i in f.d.get('inits', []):
                 if i.get('member') == fld['name']:
@@ -569,3 +577,29 @@ def _config_members(prog, rec):
         if not writers:
             out.add(fld['name'])
     return out
+
+
+def _rooted_in_member(e, name):
+    """e is this->name, or an element / field / dereference reached from it"""
+    e = SX.strip(e)
+    hops = 0
+    while SX.is_node(e) and hops < 8:
+        if SX.is_this_member(e, name):
+            return True
+        k = e.get('k')
+        if k == 'index':
+            e = SX.strip(e.get('base'))
+        elif k == 'member':
+            e = SX.strip(e.get('base'))
+        elif k == 'opcall' and e.get('op') in ('[]', '*', '->') and e.get('args'):
+            e = SX.strip(e['args'][0])
+        elif k == 'un' and e.get('op') == '*':
+            e = SX.strip(e.get('e'))
+        elif k == 'mcall' and SX.short(e.get('callee', '')) in ('at', 'back', 'front', 'operator[]'):
+            e = SX.strip(e.get('obj'))
+        elif k == 'cast':
+            e = SX.strip(e.get('e'))
+        else:
+            return False
+        hops += 1
+    return False
